@@ -409,6 +409,15 @@ func (j *judge) judgePlan(plan *ReqPlan, o Outcome, group []*ReqPlan, seed uint6
 			case overlapTag(plan) != "" && ex.Outcome == "invoked" && plan.Class == "valid" && o.Class != "invoked":
 				class, detail = "misrouted", fmt.Sprintf("the router handed it to another template (outcome %s, status %d)", o.Class, o.Status)
 			}
+			if class != "" && class != "not-served" && o.Engine == "fiber" {
+				for _, t := range plan.Tags {
+					if t == "hyphen-param" {
+						// fiber splits ":order-ref" into ":order" + "-ref": the template as annotated does not exist on
+						// fiber; whatever answered is another pattern. Same root cause as the plain 404.
+						class, detail = "not-served", "fiber does not serve the template as annotated ("+detail+")"
+					}
+				}
+			}
 			if len(o.Calls) > 1 {
 				j.add("C02", "", "invoked-twice", fmt.Sprintf("%s %s invoked %d controller methods", plan.Verb, plan.URL, len(o.Calls)), o.Engine, group, plan, seed, outs)
 			}
